@@ -36,6 +36,7 @@ def build_cache(K, resident, has_value, sizes, order, budget, refbits, oracle):
     calls = fx.CALLS4[:K]
     keys = fx.CACHE_KEYS4[:K]
     cache = MemoryCache.__new__(MemoryCache)
+    cache.__dict__.update(MemoryCache(1).__dict__)  # whatever else the constructor sets up (e.g. its lock)
     cache.memory_cache_bytes = budget
     cache.memory_usage = 0
     cache.lru_deque = deque()
